@@ -27,14 +27,30 @@ struct SubH {
     sub: Option<Subscriber<Val, AsyncLock>>,
     cw: Arc<CountWaker>,
     waker: Waker,
+    /// earlier wakers of this subscriber (see m_obs.rs): the latest one must be woken
+    old: Vec<Arc<CountWaker>>,
     seen: usize,
+    seen_cur: usize,
+    cur_pending: bool,
     registered: bool,
+}
+
+impl SubH {
+    fn total_wakes(&self) -> usize {
+        self.cw.0.load(AO::SeqCst) + self.old.iter().map(|c| c.0.load(AO::SeqCst)).sum::<usize>()
+    }
+    fn fresh_waker(&mut self) {
+        let cw = Arc::new(CountWaker(AtomicUsize::new(0)));
+        self.waker = Waker::from(cw.clone());
+        self.old.push(std::mem::replace(&mut self.cw, cw));
+        self.seen_cur = 0;
+    }
 }
 
 fn new_subh(s: Subscriber<Val, AsyncLock>) -> SubH {
     let cw = Arc::new(CountWaker(AtomicUsize::new(0)));
     let waker = Waker::from(cw.clone());
-    SubH { sub: Some(s), cw, waker, seen: 0, registered: false }
+    SubH { sub: Some(s), cw, waker, old: vec![], seen: 0, seen_cur: 0, cur_pending: false, registered: false }
 }
 
 fn opt(o: Option<Val>) -> String {
@@ -236,15 +252,25 @@ pub fn run_line(line: &str, out: &mut String) {
             }
         };
         let mut wk = vec![];
+        let mut stale_waker = false;
         for (k, s) in subs.iter_mut().enumerate() {
-            let n = s.cw.0.load(AO::SeqCst);
+            let n = s.total_wakes();
             if n > s.seen {
                 wk.push(format!("{}x{}", k, n - s.seen));
                 s.seen = n;
+                let cur = s.cw.0.load(AO::SeqCst);
+                if s.cur_pending && cur == s.seen_cur {
+                    stale_waker = true;
+                }
+                s.seen_cur = cur;
+                s.cur_pending = false;
                 s.registered = false;
             }
         }
         let mut line = text.clone();
+        if stale_waker {
+            line.push_str(" ok:wake=0");
+        }
         if !wk.is_empty() {
             line.push_str(&format!(" w{}", wk.join(",")));
         }
@@ -299,6 +325,9 @@ fn sub_op(name: &str, a: &[u32], subs: &mut Vec<SubH>, turn: usize) -> String {
     const WB: &str = "WOULDBLOCK";
     match name {
         "poll" => {
+            if turn % 4 == 3 {
+                subs[k].fresh_waker();
+            }
             // Stream impl, next().await polled once, next_ref().await polled once (value copied)
             let waker = subs[k].waker.clone();
             let mut cx = Context::from_waker(&waker);
@@ -314,6 +343,7 @@ fn sub_op(name: &str, a: &[u32], subs: &mut Vec<SubH>, turn: usize) -> String {
                     f.as_mut().poll(&mut cx).map(|o| o.map(|g| *g))
                 }
             };
+            subs[k].cur_pending = r.is_pending();
             match r {
                 Poll::Ready(Some(v)) => format!("R:{}", show(v)),
                 Poll::Ready(None) => "N".into(),
